@@ -77,11 +77,19 @@ def gen(rng, tier):
     cases += routes.add_routes(cases, rng, 80, tier)
     # the deep valid paths (13..1000 components) through --hd-path / HD_PATH too: accepted means a key comes out
     cases += routes.add_routes([c for c in cases if "deep" in c.tags and "valid" in c.tags], rng, 10 ** 6, "quick")
+    # look-alike characters that a Unicode compatibility folding turns into path syntax: full-width digits / slash / apostrophe / m,
+    # superscript and subscript digits, circled and parenthesised numbers, Arabic-Indic digits, primes and modifier apostrophes
+    LOOK = ["m/44'/60'/0'/0/\u2460", "m/44'/60'/0'/0/\uff11", "m/44'/60'/0'/0/\u00b9", "m/4\u2074'/60'/0'/0/0", "m/44'/60'/0'/0/\u2469", "\uff4d/0", "m\uff0f0", "m/0\uff07", "m/0\u2019",
+            "m/0\u02bc", "m/0\u2032", "m/\u0660", "m/\u0967", "m/\u2080", "m/\u2474", "m/\u24ea", "m/1\u20e3", "\u217f/0", "m/\u2160", "m/0\u00b4", "m/\uff10\uff07/\uff11"]
+    for t in LOOK:
+        add(t, "look-alike")
+    look_cases = [c for c in cases if "look-alike" in c.tags]
     # one character of valid paths replaced by a sign / separator / point / x / NUL / blank at every position
     from vlib.core import substitute
     for t in ("m/44'/60'/0'/0/17", "m/0", "m/2147483647'/1"):
         for v in substitute(t, 0, "+-_.,xX~\x00 '/mM"):
             add(v, "substituted")
+    cases += routes.add_routes(look_cases, rng, 10 ** 6, "quick")
     # every boundary account index through the command line too (flag or environment)
     bset = set(BOUNDS) | {7, 2 ** 31 - 1, 2 ** 31 - 2}
     cases += routes.add_routes([c for c in cases if c.line.startswith("path.for_index ") and int(c.line.split(" ")[1]) in bset], rng, 10 ** 6, "quick")
